@@ -20,7 +20,10 @@ import (
 	"os"
 	"reflect"
 	"sort"
+	"strings"
 	"time"
+
+	"github.com/deckhouse/deckhouse/pkg/log"
 
 	"verifharness/internal/opfix"
 	"verifharness/internal/supervise"
@@ -65,6 +68,9 @@ func toTask(v interface{}) specTask {
 			t.Ctxs = append(t.Ctxs, opfix.CtxDesc{B: fmt.Sprint(cm["b"]), K: fmt.Sprint(cm["k"]), G: fmt.Sprint(cm["g"])})
 		}
 	}
+	if t.Type == "HookRun" && len(t.Ctxs) > 0 {
+		t.Kind = t.Ctxs[0].K // the kind of a combined task is that of its first context
+	}
 	return t
 }
 
@@ -88,6 +94,8 @@ func realQueues(f *opfix.Fixture) map[string][]specTask {
 			t := specTask{Type: d.Type, Hook: d.Hook, Kind: d.Kind, Ctxs: d.Ctxs, Af: d.Af}
 			if t.Type != "HookRun" {
 				t.Kind, t.Ctxs, t.Af = "Enable", []opfix.CtxDesc{}, false
+			} else if len(t.Ctxs) > 0 {
+				t.Kind = t.Ctxs[0].K
 			}
 			r = append(r, t)
 		}
@@ -236,7 +244,19 @@ func replayCase(n int, c Case, hookbin string) Result {
 				if e.Hook != t.Hook {
 					return bad(i, "C03/head-first", fmt.Sprintf("queue %s: hook %s was executed, the head task is for hook %s", q, e.Hook, t.Hook))
 				}
-				if got, want := execCtxs(e), wantExecCtxs(t); !reflect.DeepEqual(got, want) {
+				got, want := execCtxs(e), wantExecCtxs(t)
+				for _, h := range c.Hooks {
+					if h.Name == e.Hook && h.V0 {
+						// configVersion v0 contexts have their own shape (no type field): compare the binding names
+						for k := range got {
+							got[k] = got[k][:strings.Index(got[k], "/")]
+						}
+						for k := range want {
+							want[k] = want[k][:strings.Index(want[k], "/")]
+						}
+					}
+				}
+				if !reflect.DeepEqual(got, want) {
 					sig := "C07/contexts"
 					for _, h := range c.Hooks {
 						if h.Name != e.Hook {
@@ -376,6 +396,7 @@ func main() {
 		return
 	}
 	opfix.Knobs(initialDelay)
+	log.SetDefault(log.NewNop())
 	of, err := os.OpenFile(*out, os.O_APPEND|os.O_WRONLY|os.O_CREATE, 0o644)
 	if err != nil {
 		fmt.Fprintln(os.Stderr, err)
